@@ -89,6 +89,7 @@ class Descriptor:
     def __init__(self, kind, view, index=None, iteration=None, sub=None, text="", src=None):
         self.kind, self.view, self.index, self.iteration, self.sub, self.text = kind, view, index, iteration, sub, text
         self.src = src      # the expression iterated over / indexed into (for views that could not be read)
+        self.iter_obj = None    # (body key, constructing call site) of the iterator object whose next() yields the element
 
     def __repr__(self):
         if self.kind == "elem":
@@ -132,7 +133,9 @@ def describe(body, e, args_param, depth=0):
                     v = view_of(src[2][0], args_param)
                     bi_ = src[3]
                     at_site = isinstance(bi_, int) and 0 <= bi_ < len(body.blocks) and body.blocks[bi_]["term"]["k"] == "Call" and len(body.blocks[bi_]["term"]["args"]) >= 1
-                    return Descriptor("elem", v, iteration=("loop", body.key, bi_), src=body.xtrace(body.blocks[bi_]["term"]["args"][0]) if at_site else src[2][0])
+                    d_ = Descriptor("elem", v, iteration=("loop", body.key, bi_), src=body.xtrace(body.blocks[bi_]["term"]["args"][0]) if at_site else src[2][0])
+                    d_.iter_obj = _iter_object(body, d_.src)
+                    return d_
                 if re.search(r"::(first|last|get|split_first|split_last)$", p):
                     v = view_of(src[2][0], args_param)
                     if p.endswith("::first"):
@@ -194,6 +197,21 @@ def _norm_view(v):
     return v
 
 
+def _in_cycle(body, bi):
+    return any(bi in body.reachable(start=s) for s in body.succs(bi))
+
+
+def _iter_object(body, recv):
+    """Identity of the iterator object a `next()` is called on: the call site that constructed it, when the receiver
+    is (a reference to) a local defined once by that call and the construction is not repeated (not inside a loop).
+    Two `next()`/`next_back()` calls on one iterator object over a known view never yield the same element."""
+    x = strip_refs(recv)
+    if x[0] == "call" and x[1] and len(x) > 3 and isinstance(x[3], int) and 0 <= x[3] < len(body.blocks) \
+            and body.blocks[x[3]]["term"]["k"] == "Call" and not _in_cycle(body, x[3]):
+        return (body.key, x[3])
+    return None
+
+
 def disjoint(a, b):
     """No operand can be denoted by both descriptors."""
     if a.kind == "unknown" or b.kind == "unknown":
@@ -202,6 +220,8 @@ def disjoint(a, b):
     if a.kind == "elem" and b.kind == "elem":
         if a.iteration == b.iteration:
             return a.sub != b.sub
+        if a.iter_obj is not None and a.iter_obj == b.iter_obj and va == vb and va[0] != "unknown" and a.sub is None and b.sub is None:
+            return True     # two different next() sites on one iterator object: the iterator has moved on in between
         return views_disjoint(va, vb)
     if a.kind == "fixed" and b.kind == "fixed":
         if va == vb:
